@@ -4,10 +4,16 @@ from specs.classify_common import *
 
 
 def run_case(case):
+	if case.get('edits') is not None:
+		return run_edit_case(case)
+	taxa, genomes = build(case)
+	return _classify_and_compare(case, taxa, genomes)
+
+
+def _classify_and_compare(case, taxa, genomes):
 	import numpy as np
 	from gambit.classify import classify
 	from gambit.db.models import reportable_taxon
-	taxa, genomes = build(case)
 	dists = np.array(case['dists'], dtype=np.float32)
 	res = classify(genomes, dists, strict=False)
 	dl = [float(x) for x in dists]
@@ -42,6 +48,32 @@ def run_case(case):
 	return {'ok': bool(ok), 'expected': exp, 'actual': act}
 
 
+def run_edit_case(case):
+	"""the SAME taxon objects are classified against, edited in place (thresholds, report flags, a parent link) and classified against
+	again: every classification follows the taxonomy as it is at that moment"""
+	import copy
+	cur = copy.deepcopy(case)
+	taxa, genomes = build(cur)
+	for step, edit in enumerate([None] + case['edits']):
+		if edit is not None:
+			ti = edit['taxon']
+			if edit['what'] == 'thr':
+				cur['taxa'][ti]['thr'] = edit['value']
+				taxa[ti].distance_threshold = edit['value']
+			elif edit['what'] == 'report':
+				cur['taxa'][ti]['report'] = edit['value']
+				taxa[ti].report = edit['value']
+			elif edit['what'] == 'parent' and edit['value'] != ti and ti not in lineage(cur, edit['value']):
+				cur['taxa'][ti]['parent'] = edit['value']
+				taxa[ti].parent = taxa[edit['value']]
+		sub = dict(cur, dists=case['dists'])
+		r = _classify_and_compare(sub, taxa, genomes)
+		if not r['ok']:
+			r['actual'] = dict(r['actual'], after_edits=case['edits'][:step])
+			return r
+	return {'ok': True, 'expected': 'taxonomy as edited', 'actual': 'ok'}
+
+
 def cases(tier, seed):
 	rnd = random.Random(seed)
 	thr = [None, 0.0, .2, .5]
@@ -57,6 +89,20 @@ def cases(tier, seed):
 		genomes = [rnd.randrange(n) for _ in range(ng)]
 		dists = [rnd.choice([.1, .3, .5, .5, .7, .9, 0.0, 0.0, 1.0, rnd.random()]) for _ in range(ng)]
 		yield {'taxa': taxa, 'genomes': genomes, 'dists': dists}
+	# the taxonomy is edited in place between classifications
+	for _ in range(300 if tier == 'quick' else 5000):
+		n = rnd.randrange(2, 7)
+		taxa = random_forest(rnd, n)
+		ng = rnd.randrange(1, 4)
+		genomes = [rnd.randrange(n) for _ in range(ng)]
+		dists = [rnd.choice([.1, .3, .5, .7, 0.0, rnd.random()]) for _ in range(ng)]
+		edits = []
+		for _e in range(rnd.randrange(1, 4)):
+			what = rnd.choice(['thr', 'thr', 'thr', 'report', 'parent'])
+			ti = rnd.randrange(n)
+			val = rnd.choice([None, 0.0, .1, .3, .5, .9]) if what == 'thr' else (rnd.random() < .5 if what == 'report' else rnd.randrange(n))
+			edits.append({'what': what, 'taxon': ti, 'value': val})
+		yield {'taxa': taxa, 'genomes': genomes, 'dists': dists, 'edits': edits}
 
 
 def bounded(tier, seed):
